@@ -226,6 +226,23 @@ Definition unchanged_clauses (p q : obs) : list string :=
       && list_eqb Z.eqb (o_dels p) (o_dels q)
    then [] else ["rotation_state"%string]).
 
+(* ---- genesis export + re-import: everything the property speaks about is carried across, and the id counter is not
+   below a pending undelegation id (else the next Undelegate overwrites somebody's pending record) *)
+Definition genesis_clauses (p q : obs) : list string :=
+  (if same_pool p q then [] else ["genesis_pool"%string]) ++
+  (if forallb (fun a => forallb (fun d => (ag (o_sbal q) a d =? ag (o_sbal p) a d) && (ag (o_rew q) a d =? ag (o_rew p) a d)
+                                          && (ag (o_nbal q) a d =? ag (o_nbal p) a d)) ds) ac
+      && forallb (fun d => (g (o_fee q) d =? g (o_fee p) d) && (g (o_treas q) d =? g (o_treas p) d)) ds
+      && votes_eqb (o_votes p) (o_votes q) && (o_prev p =? o_prev q)
+   then [] else ["genesis_state"%string]) ++
+  (if forallb (fun e => let '(i, _, _, _) := e in i <=? o_last q) (o_undels q) then [] else ["genesis_counter"%string]) ++
+  (if list_eqb Z.eqb (o_dels p) (o_dels q) then [] else ["genesis_delegators"%string]) ++
+  (if forallb (fun a => match assoc a (o_comp p), assoc a (o_comp q) with
+                        | Some x, Some y => comp_eqb x y | None, None => true
+                        | Some (al, dl, _), None => negb al && match dl with [] => true | _ => false end
+                        | None, Some _ => false end) ac
+   then [] else ["genesis_compound"%string]).
+
 (* the multistaking module account pays out only on claims (and loses the slashed part on a slash) *)
 Definition ok_module (p q : obs) : bool := forallb (fun d => g (o_mod p) d <=? g (o_mod q) d) ds.
 
@@ -244,6 +261,7 @@ Definition step_clauses (p q : obs) (o : op) (res : Z) (aux : list Z) : list str
     | OSlash _ | OSlashProposal _ => []
     | ORotate who to _ => rotation_clauses p q who to
     | ORotateVal _ | OExternal _ => unchanged_clauses p q
+    | OGenesis => genesis_clauses p q
     | OAllocate possible infl =>
         (if possible then alloc_clauses p q infl else []) ++ (if ok_module p q then [] else ["module_outflow"%string])
     | OBegin _ _ _ possible infl =>
